@@ -8,10 +8,15 @@ import numpy as np
 def coef_vector(rng, n, klass=None):
     """length-n coefficient list (python floats) of a magnitude / exactness class"""
     if klass is None:
-        klass = rng.choice(["int", "dyadic", "float", "float", "wide", "sparse", "single"])
+        klass = rng.choice(["int", "dyadic", "float", "float", "wide", "sparse", "single", "bigint", "int"])
     if n == 0:
         return [], klass
-    if klass == "int":
+    if klass == "bigint":
+        # integer-valued, large: squares and pairwise products beyond 2^63 (fixed-width integer arithmetic would wrap)
+        v = rng.integers(-4_000_000_000, 4_000_000_001, size=n).astype(float)
+        if rng.random() < 0.5:
+            v = np.round(v / 10.0 ** rng.integers(0, 6, size=n))
+    elif klass == "int":
         v = rng.integers(-9, 10, size=n).astype(float)
     elif klass == "dyadic":
         v = rng.integers(-64, 65, size=n) / 2.0 ** rng.integers(0, 8)
